@@ -219,7 +219,9 @@ func (e *Engine) readOnlyFn(fn *ssa.Function, depth int) bool {
 					continue
 				}
 				if c := e.fnContract[callee]; c != nil {
-					if len(c.Modifies) == 0 && !c.Trusted {
+					// (a trusted contract without a modifies clause is applied as "changes nothing" at
+					// every call site: the same is taken here)
+					if len(c.Modifies) == 0 {
 						continue
 					}
 					return false
